@@ -246,6 +246,8 @@ def _run(chk):
                 chk.tally('numba candidate cap binding: numba/hybrid not run'); continue
             runs['link_iter/' + s] = linkgen.run_link_iter(frames, sr, memory=mem, link_strategy=s)
         s = rng.choice(['recursive', 'nonrecursive'] + ([] if capb else ['numba']))
+        # the same call while another linking job is alive and advancing: must agree with all the others
+        runs['link_iter(another job alive)/' + s] = linkgen.run_link_iter(frames, sr, memory=mem, link_strategy=s, bystander=True)
         runs['link/' + s] = run_table(frames, sr, mem, s, 'link')
         runs['link_df_iter/' + s] = run_table(frames, sr, mem, s, 'link_df_iter')
         runs['link(permuted rows)/' + s] = run_table(frames, sr, mem, s, 'link', perm_rng=rng)
@@ -337,6 +339,8 @@ def _replay(chk, path):
     parts = name.split('/')
     if parts[0] == 'legacy':
         out = run_legacy(frames, sr, c['memory'], parts[1], parts[2])
+    elif parts[0] == 'link_iter(another job alive)':
+        out = linkgen.run_link_iter(frames, sr, memory=c['memory'], link_strategy=parts[1], bystander=True)
     elif parts[0] == 'link_iter':
         out = linkgen.run_link_iter(frames, sr, memory=c['memory'], link_strategy=parts[1])
     else:
